@@ -279,3 +279,66 @@ def section_summary(rng):
     else:
         s = "Returns:"
     return (w.capitalize() + ".\n\n" + s) if rng.random() < 0.4 else s
+
+
+# ---- Literal[...] types with degenerate members (round 5: shapes the choice handling of the emitters / parsers can lose)
+LITERAL_PLAIN = ["np", "tf", "adam", "sgd", "mnist", "gzip", "bz2", "unix", "dos", "csv", "tsv", "mean", "sum"]
+# kinds drawn by default; "squote" (a member that contains a single quote mark) is offered but NOT drawn by default: on the
+# unchanged tree parse.argparse_ast re-spells Literal["it's", 'b'] as Literal['it's', 'b'] (a finding of its own)
+DEGENERATE_LITERAL_KINDS = ["empty", "empty", "empty", "blank", "duplicate", "single", "dquote", "digits", "keyword-text",
+                            "spaced", "plain"]
+
+
+def degenerate_literal_members(rng, kind=None):
+    """(members, kind): the str members of a Literal[...] type of which one is degenerate - the empty string, a blank
+    string, a repeated member, the only member, a member holding double quote marks, text that reads as a number or as a
+    keyword constant, a member with an inner blank or comma.  ASCII, printable, no backslash."""
+    kind = kind or rng.choice(DEGENERATE_LITERAL_KINDS)
+    plain = rng.sample(LITERAL_PLAIN, rng.randint(1, 3))
+    if kind == "plain":
+        return (plain if len(plain) > 1 else plain + [rng.choice([m for m in LITERAL_PLAIN if m not in plain])]), kind
+    if kind == "single":
+        return [rng.choice(plain + ["", " ", "x"])], kind
+    if kind == "duplicate":
+        ms = list(plain)
+        ms.insert(rng.randint(0, len(ms)), rng.choice(plain))
+        return ms, kind
+    odd = {"empty": [""], "blank": [" ", "  ", "   "], "dquote": ['say "hi"', '"', 'a"b', '""'],
+           "squote": ["it's", "'", "'q'"], "digits": ["5", "0", "-1", "2.5", "007"],
+           "keyword-text": ["None", "True", "False"], "spaced": ["a b", "a,b", "x, y", "a b c"]}[kind]
+    ms = list(plain)
+    ms.insert(rng.randint(0, len(ms)), rng.choice(odd))
+    return ms, kind
+
+
+def literal_typ(members):
+    """the type text ast.unparse prints for Literal[<the str members>]"""
+    return "Literal[%s]" % ", ".join(repr(m) for m in members)
+
+
+# ---- prose that holds a word followed by a colon that reads like a section header of some docstring style
+# headers of the Google style guide, of numpydoc, and common hand-written ones; those that are section tokens of
+# docstring_utils.TOKENS on the unchanged tree are "Args:", "Kwargs:", "Raises:", "Returns:" (google) - the rest are plain prose
+HEADER_WORDS = ["Note:", "Notes:", "Yields:", "Example:", "Examples:", "Raises:", "See Also:", "See also:", "Attributes:",
+                "Warning:", "Warns:", "Todo:", "References:", "Usage:", "Args:", "Returns:", "Kwargs:", "Arguments:",
+                "Parameters:", "Methods:", "Return:", "Yield:", "Keyword Args:", "Other Parameters:", "Hint:", "Tip:"]
+# the same words without the colon (a numpydoc header is the bare word over a dashed line; in running prose it is a word)
+HEADER_BARE = ["Note", "Notes", "Yields", "Examples", "Raises", "See Also", "Attributes", "Warnings", "References", "Returns",
+               "Parameters"]
+
+
+def header_word_prose(rng, words=None, max_words=6, terminal="."):
+    """one line of clean prose (plain words, terminal punctuation) in which a section-header look-alike stands as a word of
+    the sentence: after a first sentence (`Number of epochs. Note: must be positive.`), leading (`Example: the name.`) or
+    inline (`the split, see Examples: train`).  Never ends in the colon, never at an end with blanks."""
+    w = rng.choice(words or HEADER_WORDS)
+    a = " ".join(word(rng) for _ in range(rng.randint(1, max_words)))
+    b = " ".join(word(rng) for _ in range(rng.randint(1, max_words)))
+    k = rng.random()
+    if k < 0.5:
+        s = "%s. %s %s" % (a[0].upper() + a[1:], w, b)
+    elif k < 0.75:
+        s = "%s %s" % (w, b)
+    else:
+        s = "%s, %s %s %s" % (a, rng.choice(["see", "cf.", "as in", "and"]), w, b)
+    return s + terminal if terminal else s
